@@ -166,7 +166,7 @@ func checkC11(r *core.Run, p *core.Program) {
 	table, _, _, pos := ruleTable(p, a)
 	wantCells := map[string]string{
 		"ArrayChunkRule.OnArrayData":  "ctx.MarkCompletedChunkByteCount(uint64(?pure:len($data))); if($ctx.chunkActualByteCount==$ctx.chunkExpectedByteCount){ctx.EndChunkAnyType()}",
-		"StringChunkRule.OnArrayData": "ctx.MarkCompletedChunkByteCount(uint64(?pure:len($data))); ctx.StreamStringData($data); callfield:ValidateArrayDataFunc($firstRuneBytes); callfield:ValidateArrayDataFunc($nextRunesBytes); ctx.AddBuiltArrayBytes($firstRuneBytes); ctx.AddBuiltArrayBytes($nextRunesBytes); if($ctx.chunkActualByteCount==$ctx.chunkExpectedByteCount){ctx.EndChunkString()}",
+		"StringChunkRule.OnArrayData": "ctx.MarkCompletedChunkByteCount(uint64(?pure:len($data))); def($v1,$v2=ctx.StreamStringData($data)); callfield:ValidateArrayDataFunc($v1); callfield:ValidateArrayDataFunc($v2); ctx.AddBuiltArrayBytes($v1); ctx.AddBuiltArrayBytes($v2); if($ctx.chunkActualByteCount==$ctx.chunkExpectedByteCount){ctx.EndChunkString()}",
 	}
 	for cell, want := range wantCells {
 		parts := strings.SplitN(cell, ".", 2)
@@ -195,31 +195,8 @@ func checkC11(r *core.Run, p *core.Program) {
 		r.Check("C11.chunk-accounting", "rules.Context.BeginStringBuilder|no-callers", f.Pos(), callers == 0,
 			"the string-builder array contexts are now entered by some caller but have no row in the reference specification (their data handler does not validate UTF-8)")
 	}
-	wantCtx := map[string][]string{
-		"MarkCompletedChunkByteCount": {"set($_this.chunkActualByteCount+=$byteCount); if($_this.chunkActualByteCount>$_this.chunkExpectedByteCount){reject}"},
-		"markUpcomingChunkByteCount":  {"set($_this.arrayTotalByteCount+=$byteCount); ctx.validateArrayTotalByteCount($_this.arrayTotalByteCount,$_this.arrayMaxByteCount)"},
-		"EndChunkString":              {"if(?pure:len($_this.utf8RemainderBuffer)>0){reject}; if(!ctx.tryEndArray($_this.moreChunksFollow,nil)){ctx.ChangeRule(stringRule)}"},
-		"EndChunkAnyType":             {"if(!ctx.tryEndArray($_this.moreChunksFollow,nil)){ctx.ChangeRule(arrayRule)}"},
-		"tryEndArray":                 {"if($moreChunksFollow){return}; if($validator!=nil){?call}; ctx.endContainerLike(true); return"},
-		"BeginChunkString":            {"set($_this.chunkExpectedByteCount=$elemCount); ctx.markUpcomingChunkByteCount($_this.chunkExpectedByteCount); set($_this.chunkActualByteCount=0); set($_this.moreChunksFollow=$moreChunksFollow); if($elemCount>0){ctx.ChangeRule(stringChunkRule)}else{ctx.EndChunkString()}"},
-		"BeginChunkAnyType":           {"internal/common.ElementCountToByteCount((ce/events.ArrayType).ElementSize(),$elemCount); set($_this.chunkExpectedByteCount=internal/common.ElementCountToByteCount((ce/events.ArrayType).ElementSize(),$elemCount)); ctx.markUpcomingChunkByteCount($_this.chunkExpectedByteCount); set($_this.chunkActualByteCount=0); set($_this.moreChunksFollow=$moreChunksFollow); if($elemCount>0){ctx.ChangeRule(arrayChunkRule)}else{ctx.EndChunkAnyType()}"},
-		"beginArray":                  {"set($_this.arrayTotalByteCount=0); set($_this.builtArrayBuffer=$_this.builtArrayBuffer[:0]); set($_this.utf8RemainderBuffer=$_this.utf8RemainderBacking[:0]); ctx.stackRule($rule,$dataType,noObjectCount); set($_this.arrayType=$arrayType); set($_this.arrayMaxByteCount=$maxByteCount); set($_this.ValidateArrayDataFunc=$validatorFunc)"},
-		"ValidateByteCountForType":    {"internal/common.ElementCountToByteCount((ce/events.ArrayType).ElementSize(),$elementCount); if($byteCount!=$expectedByteCount){reject}"},
-	}
-	for _, name := range sortedKeys(wantCtx) {
-		got, f := ctxSummary(p, a, name)
-		if f == nil {
-			r.Undecided("C11.chunk-accounting", "rules.Context."+name)
-			continue
-		}
-		ok := false
-		for _, w := range wantCtx[name] {
-			if w == got {
-				ok = true
-			}
-		}
-		r.Check("C11.chunk-accounting", "rules.Context."+name, f.Decl.Pos(), ok, fmt.Sprintf("Context.%s does `%s`; required `%s`", name, got, strings.Join(wantCtx[name], "` or `")))
-	}
+	checkCtxPrimitives(r, p, a, "C11.chunk-accounting", "StreamStringData", "MarkCompletedChunkByteCount", "markUpcomingChunkByteCount", "EndChunkString", "EndChunkAnyType",
+		"tryEndArray", "BeginChunkString", "BeginChunkAnyType", "beginArray", "ValidateByteCountForType", "AddBuiltArrayBytes", "GetBuiltArrayAsString")
 	// StreamStringData: pointer receiver (covered by value-receiver rule) and keeps the incomplete tail
 	if f := findFn(p, "rules", "Context.StreamStringData"); f == nil {
 		r.Undecided("C11.chunk-accounting", "rules.Context.StreamStringData")
